@@ -1000,6 +1000,7 @@ class mru_cache(object):
                         cache.dump()
                         cache.clear() 
                         queue.clear()
+                        return result # the entry is gone: no use to record
                     else: # purge most recently used cache entry
                         recorded = bool(queue) # False if no use is recorded (e.g. after load)
                         k = queue_pop() if recorded else key
